@@ -134,19 +134,26 @@ func (e *Env) check(doc any, t Type, path string, seen []string) *Mismatch {
 		}
 		return fail("value is not the literal %s", x)
 	case *Union:
+		// The mismatch reported is the one of the closest alternative: an
+		// alternative whose discriminants (literal typed members) match the
+		// document, else the one failing the deepest.
 		var best *Mismatch
+		bestDisc := false
 		for _, alt := range x.Alts {
 			m := e.check(doc, alt, path, seen)
 			if m == nil {
 				return nil
 			}
-			if best == nil || pathDepth(m.Path) > pathDepth(best.Path) {
-				best = m
+			disc := e.discriminantsMatch(doc, alt, seen)
+			if best == nil || disc && !bestDisc || disc == bestDisc && pathDepth(m.Path) > pathDepth(best.Path) {
+				best, bestDisc = m, disc
 			}
 		}
-		if best != nil && pathDepth(best.Path) > pathDepth(path) {
+		if best != nil && (bestDisc || pathDepth(best.Path) > pathDepth(path)) {
 			c := *best
-			c.Reason = "no alternative of the union " + expectedString(t, nil) + " matches; closest: " + best.Reason
+			if !strings.HasPrefix(c.Reason, "no alternative of the union") {
+				c.Reason = "no alternative of the union " + truncate(t.String(), 60) + " matches; closest: " + best.Reason
+			}
 			return &c
 		}
 		return fail("%s value matches no alternative of the union", jsonKind(doc))
@@ -393,6 +400,8 @@ func (e *Env) checkObject(doc any, x *ObjectType, path string, fail failFunc) *M
 			return fail("property %s is declared twice in the object type", jsQuote(m.Key))
 		}
 		declared[m.Key] = true
+	}
+	for _, m := range x.Members {
 		v, present := obj[m.Key]
 		if !present {
 			if m.Optional {
@@ -427,6 +436,39 @@ func (e *Env) checkObject(doc any, x *ObjectType, path string, fail failFunc) *M
 		}
 	}
 	return nil
+}
+
+// discriminantsMatch reports whether alt is an object type with at least one
+// literal typed member and doc is an object agreeing with all of them.
+func (e *Env) discriminantsMatch(doc any, alt Type, seen []string) bool {
+	obj, ok := doc.(map[string]any)
+	if !ok {
+		return false
+	}
+	rt, _, err := e.resolve(alt, seen)
+	if err != nil {
+		return false
+	}
+	ot, ok := rt.(*ObjectType)
+	if !ok {
+		return false
+	}
+	n := 0
+	for _, m := range ot.Members {
+		mt, _, err := e.resolve(m.Type, nil)
+		if err != nil {
+			continue
+		}
+		if _, isLit := mt.(*Literal); !isLit {
+			continue
+		}
+		v, present := obj[m.Key]
+		if !present || e.check(v, mt, "$", nil) != nil {
+			return false
+		}
+		n++
+	}
+	return n > 0
 }
 
 func truncate(s string, n int) string {
